@@ -5,7 +5,7 @@ import itertools
 
 import sqlalchemy as sa
 
-from .env import DatabaseError, db
+from .env import DatabaseError, db, take_rows
 from .tags import name_of, sorted_tags
 
 _N = itertools.count()
@@ -31,7 +31,7 @@ def make_processor(env, lazy_transfers=False):
             if isinstance(eng, sql.Engine):
                 ex = eng.to_executable(rel)
                 return env.run_sql(ex, list(rel.columns))
-            return [dict(r) for r in eng.execute(rel)]
+            return take_rows(eng.execute(rel), f"(Processor hook evaluating {str(rel)[:200]})")
 
         def payload_for(self, engine, columns, rows, name):
             if isinstance(engine, sql.Engine):
@@ -93,4 +93,4 @@ def execute_processed(env, rel):
     if isinstance(rel.engine, sql.Engine):
         ex = rel.engine.to_executable(rel)
         return env.run_sql(ex, list(rel.columns))
-    return [dict(r) for r in rel.engine.execute(rel)]
+    return take_rows(rel.engine.execute(rel), f"(executing the processed tree {str(rel)[:200]})")
